@@ -66,6 +66,42 @@ Definition no_write_call (c : call) : bool :=
   match c with Mkdir _ | Close _ => true | _ => false end.
 Definition check_no_write (tr : list call) : bool := forallb no_write_call tr.
 
+(* ---------- the relation with the two summary files in either order ----------
+   `safe_trace` asks for _metadata first, _common_metadata second (what the code does).  Which of the
+   two is rewritten first is irrelevant for the property (a fresh open reads _metadata only), so the
+   tie evaluates this weaker relation: "parts first, summary files last":
+     1. before the first write-open of a summary file no call touches a referenced file or a summary file;
+     2. at that moment every file opened before has been closed;
+     3. from then on only the two summary files are written, no referenced file is touched;
+     4. every write goes to a handle that is open (a write-open of the same path came before).     *)
+Definition is_sum_open (c : call) : bool :=
+  match c with OpenW p _ => bytes_eqb p md_name || bytes_eqb p cmd_name | _ => false end.
+
+Fixpoint split_sum (tr : list call) : list call * list call :=
+  match tr with
+  | [] => ([], [])
+  | c :: r => if is_sum_open c then ([], tr) else let '(a, b) := split_sum r in (c :: a, b)
+  end.
+
+(* writes only on paths opened before *)
+Fixpoint wf_writes (opened : list path) (tr : list call) : bool :=
+  match tr with
+  | [] => true
+  | OpenW p _ :: r => wf_writes (p :: opened) r
+  | Write p _ :: r => existsb (bytes_eqb p) opened && wf_writes opened r
+  | _ :: r => wf_writes opened r
+  end.
+
+Definition check_safe_trace_sym (refs : list path) (tr : list call) : bool :=
+  let '(pre, post) := split_sum tr in
+  forallb (fun c => untouched c (md_name :: cmd_name :: refs)) pre
+  && (is_nil post || is_nil (open_handles pre))
+  && forallb (fun c => untouched c refs && post_ok c) post
+  && wf_writes [] tr.
+
+Definition safe_trace_sym (refs : list path) (tr : list call) : Prop := check_safe_trace_sym refs tr = true.
+
+
 (* ---- what a fresh open reads ------------------------------------------------------------
    A fresh open of a directory parses _metadata and then reads exactly the files it references:
    the result is a function of the summary's bytes and of the bytes of the referenced files.
